@@ -148,9 +148,9 @@ SPEC = {
     },
     "C11": {
         "level": "exploration",
-        "rule": "(enum) every word over the 20-letter alphabet {Activate, Deactivate, Attach(d), PushPull(d) with a change, Detach(d), Remove(d)} x 2 "
-                "clients x 2 documents, up to length 4 (quick) / 5 (thorough), one representative per client/document renaming class (42 190 / "
-                "~8.9e5 words; exhaustive:true within that bound; the length-6 scope the property names, ~1.7e7 canonical words, is sampled by "
+        "rule": "(enum) every word over the 24-letter alphabet {Activate, Deactivate, Attach(d) with a new instance, Attach(d) re-using the detached instance, PushPull(d) with a change, Detach(d), Remove(d)} x 2 "
+                "clients x 2 documents, up to length 4 (quick) / 5 (thorough), one representative per client/document renaming class (~8.7e4 / "
+                "~2.1e6 words; exhaustive:true within that bound; the length-6 scope the property names, ~1.7e7 canonical words, is sampled by "
                 "the random part), sent through raw RPC peers so that invalid calls reach the server; (random) words of length 6..10 biased "
                 "towards deep states. oracle: a reference automaton written from docs/design/document-client-lifecycle.md decides accept/reject "
                 "per call; a rejected call must not add stored operation rows; an accepted PushPull/Detach stores exactly its change; after "
